@@ -134,6 +134,8 @@ JOINTS = ["LJoint", "TJoint", "NJoint"]
 OPS = ["Box", "Extrude", "Revolve", "Wedge", "Shell"]
 LOFTED = ["ExtrudedShape", "RevolvedShape", "LoftedShape"]
 STACKS = ["ExtrudedStack", "RevolvedStack", "TransformedStack"]
+# kinds that may be turned and moved as a whole after they were built (`case["post"]`)
+POSTED = ["Cylinder", "SemiCylinder", "Frustum", "Elbow", "ExtrudedRing", "RevolvedRing", "Revolve", "Extrude"] + LOFTED + STACKS
 
 
 def gen_frame(rng: random.Random) -> dict:
@@ -175,7 +177,7 @@ def gen_chop(rng: random.Random) -> dict:
     return out
 
 
-def gen_sketch(rng: random.Random, name: Optional[str] = None) -> dict:
+def gen_sketch(rng: random.Random, name: Optional[str] = None, square: Optional[bool] = None) -> dict:
     name = name or rng.choice(SKETCHES)
     p: Dict[str, Any] = {"sketch": name, "phi": rq(rng, 0, 6.25, 8)}
     if name in ("OneCoreDisk", "QuarterDisk", "HalfDisk", "FourCoreDisk"):
@@ -194,10 +196,32 @@ def gen_sketch(rng: random.Random, name: Optional[str] = None) -> dict:
         else:
             p["s1"] = str(Fraction(p["a"]) * Fraction(rng.choice(["0", "1/8", "1/4", "1/2"])))
             p["s2"] = str(Fraction(p["b"]) * Fraction(rng.choice(["0", "1/8", "1/4", "1/2"])))
+        if square or (square is None and rng.random() < 0.2):
+            # rounded square: equal corner radii and equal, non-zero straight sides (the outline is not a circle)
+            p["b"] = p["a"]
+            p["s1"] = p["s2"] = str(Fraction(p["a"]) * Fraction(rng.choice(["1/8", "1/4", "1/2"])))
         if name.endswith("Ring"):
             p["w1"] = rq(rng, 0.1, 0.5)
             p["w2"] = rq(rng, 0.1, 0.5)
     return p
+
+
+def gen_stack_sketch(rng: random.Random, name: str) -> dict:
+    if name == "Grid":
+        return {"sketch": "Grid", "n": rng.randint(1, 4), "m": rng.randint(1, 4), "w": rq(rng, 0.5, 3), "h": rq(rng, 0.5, 3)}
+    if name == "Annulus":
+        r = rq(rng, 0.5, 2)
+        return {"sketch": "Annulus", "n": rng.choice([3, 4, 5, 6, 8]), "R": r, "r": str(Fraction(r) * Fraction(rng.choice(["1/4", "1/2", "3/4"]))), "phi": rq(rng, 0, 6.25, 8)}
+    return gen_sketch(rng, name)
+
+
+def gen_post(rng: random.Random) -> dict:
+    """a rigid motion applied to the finished shape with the library's own rotate / translate"""
+    while True:
+        ax = [rng.randint(-3, 3) for _ in range(3)]
+        if any(ax):
+            break
+    return {"angle": rq(rng, 0.3, 2.8), "axis": ax, "origin": [rq(rng, -2, 2, 4) for _ in range(3)], "shift": [rq(rng, -2, 2, 4) for _ in range(3)]}
 
 
 def gen_quad(rng: random.Random, x0=0.0, y0=0.0) -> List[List[str]]:
@@ -332,20 +356,21 @@ def gen_case(rng: random.Random, kind: str) -> dict:
         else:
             c["p"].update(dz=rq(rng, 0.4, 2), twist=rq(rng, -0.3, 0.3), scale=rng.choice(["3/4", "1", "5/4"]), mid=rng.choice([0, 1, 2]))
     elif kind in STACKS:
-        c["p"] = gen_sketch(rng, rng.choice(SKETCHES + ["Grid", "Grid", "Grid"]))
-        if c["p"]["sketch"] == "Grid":
-            c["p"] = {"sketch": "Grid", "n": rng.randint(1, 4), "m": rng.randint(1, 4), "w": rq(rng, 0.5, 3), "h": rq(rng, 0.5, 3)}
+        c["p"] = gen_stack_sketch(rng, rng.choice(SKETCHES + ["Grid", "Grid", "Grid", "Annulus", "Annulus"]))
         c["p"]["k"] = rng.randint(1, 4)
         if kind == "ExtrudedStack":
             c["p"]["amount"] = rq(rng, 0.5, 3)
         elif kind == "RevolvedStack":
             c["p"].update(angle=rq(rng, 0.3, 1.5), off=rq(rng, 4, 8))
         else:
-            c["p"].update(dz=rq(rng, 0.3, 1), twist=rq(rng, -0.2, 0.2), mid=int(rng.random() < 0.5))
+            # `taper`: a Scaling without origin in the transform list (every tier is scaled about its own centre)
+            c["p"].update(dz=rq(rng, 0.3, 1), twist=rq(rng, -0.2, 0.2), mid=int(rng.random() < 0.5), taper=rng.choice(["4/5", "9/10", "1", "11/10"]))
     elif kind == "Chain":
         c["p"] = gen_chain(rng)
     else:
         raise ValueError(kind)
+    if kind in POSTED and rng.random() < 0.4:
+        c["post"] = gen_post(rng)
     return c
 
 
@@ -374,6 +399,11 @@ def make_sketch(fr: Frame, p: dict):
         g = Grid([0, 0, 0], [fl(p["w"]), fl(p["h"]), 0], p["n"], p["m"])
         return place_element(fr, g)
     cs, sn = math.cos(fl(p["phi"])), math.sin(fl(p["phi"]))
+    if name == "Annulus":
+        from classy_blocks.construct.flat.sketches.annulus import Annulus
+
+        r = fl(p["R"])
+        return Annulus(c, fr.P(r * cs, r * sn, 0), nrm, fr.L(p["r"]), p["n"])
     if name in ("OneCoreDisk", "QuarterDisk", "HalfDisk", "FourCoreDisk"):
         r = fl(p["R"])
         return getattr(d, name)(c, fr.P(r * cs, r * sn, 0), nrm)
@@ -412,6 +442,36 @@ def place_element(fr: Frame, el):
         el.rotate(ang, ax, [0.0, 0.0, 0.0])
     el.translate(fr.t)
     return el
+
+
+def post_maps(case: dict):
+    """(point map, vector map) of the rigid motion `case["post"]` (identity when absent)"""
+    import numpy as np
+
+    post = case.get("post")
+    if not post:
+        return (lambda x: np.asarray(x, dtype=float)), (lambda v: np.asarray(v, dtype=float))
+    ax = np.array([float(a) for a in post["axis"]])
+    ax = ax / np.linalg.norm(ax)
+    a = fl(post["angle"])
+    o = np.array([fl(x) for x in post["origin"]])
+    sh = np.array([fl(x) for x in post["shift"]])
+
+    def rot(v):
+        v = np.asarray(v, dtype=float)
+        return v * math.cos(a) + np.cross(ax, v) * math.sin(a) + ax * np.dot(ax, v) * (1 - math.cos(a))
+
+    return (lambda x: rot(np.asarray(x, dtype=float) - o) + o + sh), rot
+
+
+def apply_post(case: dict, entity) -> None:
+    import numpy as np
+
+    post = case.get("post")
+    if post:
+        ax = np.array([float(a) for a in post["axis"]])
+        entity.rotate(fl(post["angle"]), ax / np.linalg.norm(ax), [fl(x) for x in post["origin"]])
+        entity.translate([fl(x) for x in post["shift"]])
 
 
 class Built:
@@ -510,11 +570,10 @@ def build(case: dict) -> Built:
 
             def moved(frac):
                 t = [tr.Translation(nrm * fr.L(p["dz"]) * frac), tr.Rotation(nrm, fl(p["twist"]) * frac, fr.P(0, 0, 0) + nrm * fr.L(p["dz"]) * frac)]
-                out = sk.copy().transform(t)
                 sc = 1 + (fl(p["scale"]) - 1) * frac
                 if sc != 1:
-                    out.scale(sc, fr.P(0, 0, 0) + nrm * fr.L(p["dz"]) * frac)
-                return out
+                    t.append(tr.Scaling(sc))  # no origin: about the centre of the sketch
+                return sk.copy().transform(t)
 
             mids = {0: None, 1: moved(0.5), 2: [moved(1 / 3), moved(2 / 3)]}[p["mid"]]
             s = cb.LoftedShape(sk, moved(1.0), mids)
@@ -529,10 +588,21 @@ def build(case: dict) -> Built:
         else:
             t2 = [tr.Translation(nrm * fr.L(p["dz"])), tr.Rotation(nrm, fl(p["twist"]), fr.P(0, 0, 0))]
             tm = [tr.Translation(nrm * fr.L(p["dz"]) / 2), tr.Rotation(nrm, fl(p["twist"]) / 2, fr.P(0, 0, 0))] if p["mid"] else None
+            taper = fl(p.get("taper", "1"))
+            if taper != 1:
+                t2.append(tr.Scaling(taper))
+                if tm is not None:
+                    tm.append(tr.Scaling(math.sqrt(taper)))
             s = cb.TransformedStack(sk, t2, k, tm)
         b.entities = [s]
         b.shapes = [s]
-        if p["sketch"] == "Grid":
+        apply_post(case, s)
+        if p["sketch"] == "Annulus":
+            # no chop lists either: radial on one segment, tangential on every segment of the first tier
+            b.calls.append(lambda: s.grid[0][0][0].chop(0, **dict(kws[0])))
+            for i in range(p["n"]):
+                b.calls.append(lambda i=i: s.grid[0][0][i].chop(1, **dict(kws[1])))
+        elif p["sketch"] == "Grid":
             # a cartesian sketch has no chop lists: one operation per column / row, as in examples/stack/cube.py
             for ix in range(p["n"]):
                 b.calls.append(lambda ix=ix: s.grid[0][0][ix].chop(0, **dict(kws[0])))
@@ -550,6 +620,7 @@ def build(case: dict) -> Built:
 
     b.entities = [s]
     b.shapes = [s]
+    apply_post(case, s)
     if kind in ROUND or kind in JOINTS:
         round_calls(s)
     elif kind in LOFTED:
@@ -711,8 +782,25 @@ class C11(core.Check):
             for sk in SKETCHES:
                 c = gen_case(rng, "ExtrudedShape")
                 keep = {x: c["p"][x] for x in c["p"] if x in ("amount", "vec")}
+                # the spline family as rounded squares (equal non-zero sides: arcs would leave the outline)
+                c["p"] = gen_sketch(rng, sk, square=True)
+                c["p"].update(keep)
+                cases.append(c)
+            # revolved shapes turned and moved after creation
+            for sk in rng.sample(SKETCHES, 3):
+                c = gen_case(rng, "RevolvedShape")
+                keep = {x: c["p"][x] for x in c["p"] if x in ("angle", "off")}
                 c["p"] = gen_sketch(rng, sk)
                 c["p"].update(keep)
+                c["post"] = gen_post(rng)
+                cases.append(c)
+            # tapered stacks of sketches whose centre is not a point of their first face
+            for sk in ("Oval", "Grid", "Annulus", "HalfDisk"):
+                c = gen_case(rng, "TransformedStack")
+                keep = {x: c["p"][x] for x in c["p"] if x in ("dz", "twist", "mid")}
+                c["p"] = gen_stack_sketch(rng, sk)
+                c["p"].update(keep)
+                c["p"].update(k=rng.randint(2, 3), taper=rng.choice(["4/5", "9/10", "11/10"]))
                 cases.append(c)
             for k in (2, 3, 4, 5, 6, 7):
                 c = gen_case(rng, "NJoint")
@@ -868,7 +956,12 @@ class C11(core.Check):
         if k in LOFTED:
             reqs.append(f"c11.loft {p['sketch']} 1")
         elif k in STACKS:
-            reqs.append(f"c11.grid {p['n']} {p['m']} {p['k']}" if p["sketch"] == "Grid" else f"c11.loft {p['sketch']} {p['k']}")
+            if p["sketch"] == "Grid":
+                reqs.append(f"c11.grid {p['n']} {p['m']} {p['k']}")
+            elif p["sketch"] == "Annulus":
+                reqs.append(f"c11.ring {p['n']} {p['k']}")
+            else:
+                reqs.append(f"c11.loft {p['sketch']} {p['k']}")
         elif k == "ExtrudedRing":
             reqs.append(f"c11.ring {p['n']} 1")
         name = self._table_name(case)
@@ -903,7 +996,7 @@ class C11(core.Check):
             a = next(it).split(" ")
             if a[0] != "[" + ",".join(map(str, flat)) + "]":
                 return f"blocking of {k}({p.get('sketch', '')}): implementation {impl['blocks']}, model {a[0]}"
-            if len(a) > 1 and p.get("sketch") != "Grid":
+            if len(a) > 1 and p.get("sketch") not in ("Grid", "Annulus"):
                 if sorted(json.loads(a[1])) != impl["chopped"]:
                     return f"chopped axes of {k}({p.get('sketch', '')}): implementation {impl['chopped']}, model {a[1]}"
         if self._table_name(case):
@@ -996,6 +1089,8 @@ def expected_counts(case: dict) -> Optional[Tuple[int, int]]:
     if k in STACKS:
         if p["sketch"] == "Grid":
             return p["n"] * p["m"] * p["k"], (p["n"] + 1) * (p["m"] + 1) * (p["k"] + 1)
+        if p["sketch"] == "Annulus":
+            return p["n"] * p["k"], 2 * p["n"] * (p["k"] + 1)
         return SKETCH_FACES[p["sketch"]] * p["k"], SKETCH_POINTS[p["sketch"]] * (p["k"] + 1)
     return None
 
@@ -1009,8 +1104,10 @@ def circles(case: dict) -> List[dict]:
     out = []
     nz = fr.V(0, 0, 1)
 
+    pmap, vmap = post_maps(case)
+
     def add(c, n, r, nv, na):
-        out.append({"c": np.asarray(c), "n": np.asarray(n), "r": float(r), "nv": nv, "na": na})
+        out.append({"c": pmap(c), "n": vmap(n), "r": float(r), "nv": nv, "na": na})
 
     if k in ("Cylinder", "SemiCylinder", "Frustum"):
         nv, na = (5, 4) if k == "SemiCylinder" else (8, 8)
@@ -1069,8 +1166,23 @@ def circles(case: dict) -> List[dict]:
     return out
 
 
-def chain_elements(case: dict, impl: dict) -> Optional[List[dict]]:
-    return None
+def revolve_axis(case: dict):
+    """(point on the axis, unit direction, number of side arcs) of the revolved kinds, in the world as placed"""
+    import numpy as np
+
+    k, p = case["kind"], case["p"]
+    fr = Frame(case)
+    pmap, vmap = post_maps(case)
+    if k == "RevolvedShape":
+        o, d, n = fr.P(0, -fl(p["off"]), 0), fr.V(1, 0, 0), SKETCH_POINTS[p["sketch"]]
+    elif k == "Revolve":
+        o, d, n = fr.P(0, 0, 0), fr.V(1, 0, 0), 4
+    elif k == "RevolvedRing":
+        o, d, n = fr.P(0, 0, 0), fr.V(1, 0, 0), 4 * p["n"]
+    else:
+        return None
+    d = vmap(d)
+    return pmap(o), d / np.linalg.norm(d), n
 
 
 def oracle(case: dict, impl: dict) -> List[dict]:
@@ -1233,8 +1345,30 @@ def oracle(case: dict, impl: dict) -> List[dict]:
                     [float(d1), float(d2)],
                 )
                 break
+    # side edges of revolved shapes: every `angle` arc runs on a circle about the revolution axis of the shape as
+    # it is placed (both ends and the written arc point equally far from the axis, at the same position along it)
+    rax = revolve_axis(case)
+    if rax is not None:
+        o, d, want = rax
+        nang = 0
+        for v1, v2, kind, tp, _org in impl["arcs"]:
+            if kind != "angle":
+                continue
+            nang += 1
+            q = np.array([float(core.parse_rat(x)) for x in tp])
+            rel = [fpts[v1] - o, fpts[v2] - o, q - o]
+            al = [float(r @ d) for r in rel]
+            rd = [float(np.linalg.norm(r - a * d)) for r, a in zip(rel, al)]
+            mid = (rel[0] + rel[1]) / 2
+            short = float((rel[2] - al[2] * d) @ (mid - float(mid @ d) * d)) > 0
+            if max(al) - min(al) > tol or max(rd) - min(rd) > tol or not short:
+                viol(f"{cls}:side-arc-off-axis", f"the arc {v1}-{v2} does not run about the revolution axis: distances {rd}, positions {al}", [rd, al])
+                break
+        else:
+            if nang < want:
+                viol(f"{cls}:missing-side-arc", f"{nang} revolved side edges are arcs instead of {want}", nang, want)
     if case["kind"] == "Hemisphere":
-        c0 = Frame(case).P(0, 0, 0)
+        c0 = post_maps(case)[0](Frame(case).P(0, 0, 0))
         rr = Frame(case).L(case["p"]["R"])
         dist = np.linalg.norm(fpts - c0, axis=1)
         on = int(np.sum(np.abs(dist - rr) < tol))
